@@ -22,7 +22,8 @@
 (***************************************************************************)
 EXTENDS Integers, Sequences, FiniteSets, TLC
 
-CONSTANTS NThreads,     \* threads 1..NThreads are pushed one after the other by the owner
+CONSTANTS Peekers,      \* peeker processes (two are needed for one to fill the cache while the other reads it)
+          NThreads,     \* threads 1..NThreads are pushed one after the other by the owner
           MaxPeeks,     \* calls of the peeker
           MaxTakes      \* calls of the taker (successful wsapi takes)
 Th == 1..NThreads
@@ -37,14 +38,14 @@ VARIABLES q,            \* the queue, oldest first (its own synchronisation is L
           during,       \* cached threads observed since the current peek began (ghost)
           bad
 vars == <<q, lock, seq, cptr, cd1, cd2, pc, loc, pushed, np, nt, res, during, bad>>
-Procs == {"owner", "taker", "peeker"}
+Procs == {"owner", "taker"} \cup Peekers
 NoLoc == [s |-> 0, t |-> 0, a |-> 0, b |-> 0, s0 |-> 0]
 
 Init == /\ q = <<>> /\ lock = "free" /\ seq = 0 /\ cptr = 0 /\ cd1 = 0 /\ cd2 = 0
         /\ pc = [p \in Procs |-> "idle"] /\ loc = [p \in Procs |-> NoLoc]
-        /\ pushed = 0 /\ np = 0 /\ nt = 0 /\ res = <<>> /\ during = {} /\ bad = "ok"
+        /\ pushed = 0 /\ np = 0 /\ nt = 0 /\ res = [p \in Peekers |-> <<>>] /\ during = [p \in Peekers |-> {}] /\ bad = "ok"
 Goto(p, l) == pc' = [pc EXCEPT ![p] = l]
-Observe == during' = IF pc["peeker"] # "idle" THEN during \cup {cptr'} ELSE during
+Observe == during' = [p \in Peekers |-> IF pc[p] # "idle" THEN during[p] \cup {cptr'} ELSE during[p]]
 
 \* ---- owner: pushes threads; pops the newest; popping the last entry invalidates the cache under the lock
 Push == /\ pc["owner"] = "idle" /\ pushed < NThreads
@@ -70,13 +71,13 @@ Inv(p) ==
      /\ UNCHANGED <<q, seq, cptr, cd1, cd2, loc, pushed, np, nt, res, during, bad>>
 
 \* ---- peeker
-PeekStart == /\ pc["peeker"] = "idle" /\ np < MaxPeeks /\ np' = np + 1
-             /\ Goto("peeker", "chk") /\ during' = {cptr} /\ res' = <<>>
+PeekStart(p) ==
+             /\ pc[p] = "idle" /\ np < MaxPeeks /\ np' = np + 1
+             /\ Goto(p, "chk") /\ during' = [during EXCEPT ![p] = {cptr}] /\ res' = [res EXCEPT ![p] = <<>>]
              /\ UNCHANGED <<q, lock, seq, cptr, cd1, cd2, loc, pushed, nt, bad>>
-Peek ==
-  LET p == "peeker" IN
+Peek(p) ==
   \/ /\ pc[p] = "chk"                 \* queue empty? -> NULL; cache empty? -> try to fill it
-     /\ IF q = <<>> THEN Goto(p, "idle") /\ res' = <<0, 0, 0>> /\ UNCHANGED lock
+     /\ IF q = <<>> THEN Goto(p, "idle") /\ res' = [res EXCEPT ![p] = <<0, 0, 0>>] /\ UNCHANGED lock
         ELSE IF cptr = 0 THEN (IF lock = "free" THEN lock' = p /\ Goto(p, "fill0") ELSE Goto(p, "chk") /\ UNCHANGED lock) /\ res' = res
         ELSE Goto(p, "rd0") /\ UNCHANGED lock /\ res' = res
      /\ UNCHANGED <<q, seq, cptr, cd1, cd2, loc, pushed, np, nt, during, bad>>
@@ -104,13 +105,13 @@ Peek ==
      /\ UNCHANGED <<q, lock, seq, cptr, cd1, cd2, pushed, np, nt, res, during, bad>>
   \/ /\ pc[p] = "rd4"                 \* s1 := seq ; accept only an even, unchanged sequence number
      /\ IF loc[p].s0 % 2 = 1 \/ seq # loc[p].s0 THEN Goto(p, "rd0") /\ res' = res /\ bad' = bad
-        ELSE /\ Goto(p, "idle") /\ res' = <<loc[p].t, loc[p].a, loc[p].b>>
+        ELSE /\ Goto(p, "idle") /\ res' = [res EXCEPT ![p] = <<loc[p].t, loc[p].a, loc[p].b>>]
              /\ bad' = IF loc[p].t # 0 /\ (loc[p].a # Hint(loc[p].t) \/ loc[p].b # Hint(loc[p].t)) THEN "peek returned a thread with data that is not that thread's hint"
-                       ELSE IF loc[p].t \notin during THEN "peek returned a thread that was not cached at any moment of the call"
+                       ELSE IF loc[p].t \notin during[p] THEN "peek returned a thread that was not cached at any moment of the call"
                        ELSE bad
      /\ UNCHANGED <<q, lock, seq, cptr, cd1, cd2, loc, pushed, np, nt, during>>
 
-Next == Push \/ PopStart \/ TakeStart \/ Inv("owner") \/ Inv("taker") \/ PeekStart \/ Peek
+Next == Push \/ PopStart \/ TakeStart \/ Inv("owner") \/ Inv("taker") \/ \E p \in Peekers : PeekStart(p) \/ Peek(p)
 Spec == Init /\ [][Next]_vars
 OK == bad = "ok"
 \* the sequence number is odd exactly while a writer is between its two increments
